@@ -4,6 +4,11 @@
 package main
 
 import (
+	"github.com/bokysan/socketace/v2/internal/server"
+	kcp "github.com/xtaci/kcp-go/v5"
+	"github.com/xtaci/smux"
+	ms "github.com/multiformats/go-multistream"
+	"github.com/bokysan/socketace/v2/internal/util/buffers"
 	"os"
 	"bytes"
 	"fmt"
@@ -83,12 +88,101 @@ func init() {
 	//  -> open1 ok|err ; per further connection: ok | <failure> ; iso <0/1>
 	register("c02", func(a []Tok) []Tok {
 		carrier, k, sc := a[0].W, int(a[1].I), a[2].W
-		w, err := newE2E(carrier, nil)
+		var srvAddr string
+		w, err := newE2E(carrier, func(target string) string { srvAddr = target; return target })
 		if err != nil {
 			fmt.Fprintln(os.Stderr, "verifharness: scenario setup failed:", err)
 			return []Tok{TW("setup"), TW("err")}
 		}
 		defer w.close()
+		if sc == "raw-idle" {
+			// a peer of its own making: completes the handshake, opens a stream and says nothing on it (a client stalled between
+			// opening and its first octet); the regular client's connections on the same endpoint, and a second stream of the same
+			// session, must still be accepted, select their channel and move data
+			if srvAddr == "" {
+				return []Tok{TW("setup"), TW("no-raw-access")}
+			}
+			c, err := net.Dial("tcp", srvAddr)
+			if err != nil {
+				return []Tok{TW("setup"), TW("err")}
+			}
+			defer c.Close()
+			cc, err := socketace.NewClientConnection(c, clientCfg("none", true, true), false, "localhost")
+			if err != nil {
+				return []Tok{TW("setup"), TW("raw-handshake")}
+			}
+			cfg := smux.DefaultConfig()
+			cfg.MaxFrameSize = buffers.BufferSize - 128
+			sess, err := smux.Client(cc, cfg)
+			if err != nil {
+				return []Tok{TW("setup"), TW("raw-session")}
+			}
+			defer sess.Close()
+			idle, err := sess.OpenStream()
+			if err != nil {
+				return []Tok{TW("open1"), TW("err")}
+			}
+			defer idle.Close()
+			time.Sleep(100 * time.Millisecond)
+			out := []Tok{TW("open1"), TW("ok")}
+			iso := true
+			for i := 1; i < k; i++ {
+				res := make(chan string, 1)
+				go func(i int) {
+					st, err := sess.OpenStream()
+					if err != nil {
+						res <- "not-served"
+						return
+					}
+					defer st.Close()
+					st.SetDeadline(time.Now().Add(3 * time.Second))
+					if err := ms.SelectProtoOrFail("/svc", st); err != nil {
+						res <- "not-served"
+						return
+					}
+					tc := w.target.next(3 * time.Second)
+					if tc == nil {
+						res <- "not-served"
+						return
+					}
+					defer tc.Close()
+					s, _ := echoOnce(st, tc, []byte(fmt.Sprintf("raw-stream-%03d", i)), 3*time.Second)
+					res <- s
+				}(i)
+				select {
+				case x := <-res:
+					out = append(out, TW(x))
+					if x == "crossed" {
+						iso = false
+					}
+				case <-time.After(8 * time.Second):
+					out = append(out, TW("hang"))
+				}
+			}
+			return append(out, TW("iso"), TBool(iso))
+		}
+		if sc == "stall-up" || sc == "stall-down" {
+			// one logical connection holds 3 MiB that its reader does not take (less than the multiplexer's shared 4 MiB): the target
+			// is one end of a synchronous pipe, so what it does not read stays inside the tunnel
+			app, err := net.Dial("tcp", w.stallAddr)
+			if err != nil {
+				return []Tok{TW("open1"), TW("err")}
+			}
+			defer app.Close()
+			var tc net.Conn
+			select {
+			case tc = <-w.stallConns:
+			case <-time.After(20 * time.Second):
+				return []Tok{TW("open1"), TW("err")}
+			}
+			defer tc.Close()
+			if sc == "stall-up" {
+				go app.Write(patBytes(3, 3<<20))
+			} else {
+				go tc.Write(patBytes(4, 3<<20))
+			}
+			time.Sleep(700 * time.Millisecond)
+		}
 		app1, t1, err := w.dialApp(20 * time.Second)
 		if err != nil {
 			return []Tok{TW("open1"), TW("err")}
@@ -104,6 +198,20 @@ func init() {
 		case "close-first":
 			app1.Close()
 			time.Sleep(20 * time.Millisecond)
+		case "other-refused":
+			// while this connection is in the middle of a transfer another application asks for a channel the server does not offer
+			if s, ok := echoOnce(app1, t1, patBytes(1, 1024), 3*time.Second); !ok {
+				return append(out, TW("first-half"), TW(s))
+			}
+			if x, err := net.Dial("tcp", w.nochanAddr); err == nil {
+				x.SetReadDeadline(time.Now().Add(2 * time.Second))
+				x.Read(make([]byte, 1)) // refused: closed by the client
+				x.Close()
+			}
+			time.Sleep(50 * time.Millisecond)
+			if s, ok := echoOnce(app1, t1, patBytes(2, 1024), 3*time.Second); !ok {
+				return append(out, TW("second-half"), TW(s), TW("iso"), TBool(true))
+			}
 		case "all-busy":
 			go func() { buf := make([]byte, 4096); for { n, err := t1.Read(buf); if err != nil { return }; t1.Write(buf[:n]) } }()
 			go func() { for i := 0; i < 200; i++ { if _, err := app1.Write(patBytes(i, 3000)); err != nil { return }; time.Sleep(time.Millisecond) } }()
@@ -146,7 +254,13 @@ func init() {
 	//  -> per client ok | <failure>
 	register("c15", func(a []Tok) []Tok {
 		carrier, stall, n := a[0].W, a[1].W, int(a[2].I)
+		expire := len(a) > 3 && a[3].I == 1
 		socketace.HandshakeTimeout = 30 * time.Second // the default; the stalled peer must not need it to run out
+		if expire {
+			// the variant in which the stalled peer's own handshake does run into its time limit before the others arrive
+			socketace.HandshakeTimeout = 1500 * time.Millisecond
+			defer func() { socketace.HandshakeTimeout = 30 * time.Second }()
+		}
 		var srv string
 		w, err := newE2E(carrier, func(target string) string { srv = target; return target })
 		if err != nil {
@@ -158,12 +272,19 @@ func init() {
 			if srv == "" {
 				return []Tok{TW("setup"), TW("no-raw-access")}
 			}
-			c, err := net.Dial("tcp", srv)
+			var c net.Conn
+			if strings.HasPrefix(carrier, "kcp") {
+				c, err = kcp.DialWithOptions(srv, nil, 10, 3)
+			} else {
+				c, err = net.Dial("tcp", srv)
+			}
 			if err != nil {
 				return []Tok{TW("setup"), TW("stall-dial")}
 			}
 			defer c.Close()
 			switch stall {
+			case "tlspartial":
+				c.Write([]byte{0x16, 0x03, 0x01}) // the beginning of a TLS record header, on a TLS endpoint
 			case "halfline":
 				c.Write([]byte("X-SOCKETACE / HT"))
 			case "between":
@@ -174,6 +295,9 @@ func init() {
 				c.Write([]byte{0, 1, 2, 3, 255, 254})
 			}
 			time.Sleep(60 * time.Millisecond)
+			if expire {
+				time.Sleep(socketace.HandshakeTimeout + 800*time.Millisecond)
+			}
 		}
 		var out []Tok
 		for i := 0; i < n; i++ {
@@ -213,12 +337,51 @@ func init() {
 	//  -> got <n> diff <firstdiff|-1> eof <0/1> ms <elapsed>
 	register("c17", func(a []Tok) []Tok {
 		carrier, n, closer := a[0].W, int(a[1].I), a[2].W
-		w, err := newE2E(carrier, nil)
+		variant := ""
+		if len(a) > 3 {
+			variant = a[3].W
+		}
+		if variant == "aged" {
+			socketace.HandshakeTimeout = time.Second
+			defer func() { socketace.HandshakeTimeout = 30 * time.Second }()
+		}
+		real := carrier
+		if carrier == "forward" {
+			real = "tcp" // the tunnel exists but the listener under test reaches the service directly through its forward address
+		}
+		w, err := newE2E(real, nil)
 		if err != nil {
 			fmt.Fprintln(os.Stderr, "verifharness: scenario setup failed:", err)
 			return []Tok{TW("setup"), TW("err")}
 		}
 		defer w.close()
+		if carrier == "forward" {
+			fa, err := w.addListener("svc", clientCfg("none", false, true), w.target.ln.Addr().String())
+			if err != nil {
+				return []Tok{TW("setup"), TW("err")}
+			}
+			w.appAddr = fa
+		}
+		if variant == "aged" {
+			a0, t0, err := w.dialApp(20 * time.Second)
+			if err != nil {
+				return []Tok{TW("connect"), TW("err")}
+			}
+			a0.Close()
+			t0.Close()
+			time.Sleep(socketace.HandshakeTimeout + 400*time.Millisecond)
+		}
+		var open2 net.Conn
+		if variant == "other-open" {
+			// another logical connection stays open (and idle) on the same session throughout
+			o, ot, err := w.dialApp(20 * time.Second)
+			if err == nil {
+				open2 = o
+				defer o.Close()
+				defer ot.Close()
+			}
+		}
+		_ = open2
 		app, tc, err := w.dialApp(20 * time.Second)
 		if err != nil {
 			return []Tok{TW("connect"), TW("err")}
@@ -248,8 +411,15 @@ func init() {
 	//  -> g <base> <after n> <after 2n> fd <base> <after> cpu <ms in an idle second> ok <connections that echoed>
 	register("c14", func(a []Tok) []Tok {
 		carrier, n, mode := a[0].W, int(a[1].I), a[2].W
+		if mode == "read-timeout" {
+			return c14ReadTimeout()
+		}
 		var relay *cutRelay
-		w, err := newE2E(carrier, func(target string) string {
+		real := carrier
+		if carrier == "forward" {
+			real = "tcp"
+		}
+		w, err := newE2E(real, func(target string) string {
 			relay = newCutRelay(target)
 			return "127.0.0.1:" + relay.port()
 		})
@@ -258,8 +428,17 @@ func init() {
 			return []Tok{TW("setup"), TW("err")}
 		}
 		defer w.close()
+		if carrier == "forward" {
+			// the listener under test reaches the service directly through its forward address
+			fa, err := w.addListener("svc", clientCfg("none", false, true), w.target.ln.Addr().String())
+			if err != nil {
+				return []Tok{TW("setup"), TW("err")}
+			}
+			w.appAddr = fa
+		}
 		// warm up: the physical session and one logical connection
 		okc := 0
+		eofs := 0
 		one := func(i int) {
 			app, tc, err := w.dialApp(5 * time.Second)
 			if err != nil {
@@ -268,7 +447,15 @@ func init() {
 			if _, ok := echoOnce(app, tc, []byte(fmt.Sprintf("c14-%d", i)), 3*time.Second); ok {
 				okc++
 			}
-			if mode == "target-closes" {
+			if mode == "target-closes-wait" {
+				// the application waits to be told that the service has hung up (and never closes by itself if it is not)
+				tc.Close()
+				app.SetReadDeadline(time.Now().Add(1500 * time.Millisecond))
+				if _, err := app.Read(make([]byte, 1)); err == io.EOF {
+					eofs++
+					app.Close()
+				}
+			} else if mode == "target-closes" {
 				tc.Close()
 				time.Sleep(2 * time.Millisecond)
 				app.Close()
@@ -279,7 +466,7 @@ func init() {
 			}
 		}
 		one(-1)
-		okc = 0
+		okc, eofs = 0, 0
 		g0 := settleGoroutines()
 		fd0 := fdCount()
 		phase := func() {
@@ -354,6 +541,92 @@ func init() {
 			time.Sleep(1 * time.Second)
 			cpu = cpuTimeMs() - c0
 		}
-		return []Tok{TW("g"), TIn(g0), TIn(g1), TIn(g2), TW("fd"), TIn(fd0), TIn(fd1), TW("cpu"), TI(cpu), TW("ok"), TIn(okc)}
+		out := []Tok{TW("g"), TIn(g0), TIn(g1), TIn(g2), TW("fd"), TIn(fd0), TIn(fd1), TW("cpu"), TI(cpu), TW("ok"), TIn(okc)}
+		if mode == "target-closes-wait" {
+			out = append(out, TW("eof"), TIn(eofs))
+		}
+		return out
 	})
+}
+
+// errTimeoutConn: a carrier whose reads start failing with a time-out error (what a silently lost peer looks like once the kernel
+// gives up: ETIMEDOUT is a net.Error with Timeout() true) while writes still appear to work.
+type errTimeoutConn struct {
+	net.Conn
+	mu   sync.Mutex
+	dead bool
+}
+
+type timeoutErr struct{}
+
+func (timeoutErr) Error() string   { return "read: connection timed out" }
+func (timeoutErr) Timeout() bool   { return true }
+func (timeoutErr) Temporary() bool { return false }
+
+func (c *errTimeoutConn) Read(p []byte) (int, error) {
+	for {
+		c.mu.Lock()
+		d := c.dead
+		c.mu.Unlock()
+		if d {
+			return 0, &net.OpError{Op: "read", Net: "tcp", Err: timeoutErr{}}
+		}
+		c.Conn.SetReadDeadline(time.Now().Add(20 * time.Millisecond))
+		n, err := c.Conn.Read(p)
+		if n > 0 || (err != nil && !os.IsTimeout(err)) {
+			return n, err
+		}
+	}
+}
+
+// c14ReadTimeout: a server-side session whose carrier dies with a time-out error: the session must end, the accept goroutine
+// must return and an idle second must cost no processor time.
+func c14ReadTimeout() []Tok {
+	cl, sv := memPipe(0, 0)
+	svc := &errTimeoutConn{Conn: sv}
+	hits := 0
+	done := make(chan struct{})
+	go func() {
+		server.AcceptConnection(svc, serverCfg("none", false), false, server.Channels{&echoChannel{hits: &hits}})
+		close(done)
+	}()
+	cc, err := socketace.NewClientConnection(cl, clientCfg("none", true, true), false, "localhost")
+	if err != nil {
+		return []Tok{TW("setup"), TW("err")}
+	}
+	cfg := smux.DefaultConfig()
+	cfg.MaxFrameSize = buffers.BufferSize - 128
+	sess, err := smux.Client(cc, cfg)
+	if err != nil {
+		return []Tok{TW("setup"), TW("err")}
+	}
+	defer sess.Close()
+	okc := 0
+	if st, err := sess.OpenStream(); err == nil {
+		st.SetDeadline(time.Now().Add(3 * time.Second))
+		if ms.SelectProtoOrFail("/echo", st) == nil {
+			st.Write([]byte("ping"))
+			b := make([]byte, 4)
+			if _, err := io.ReadFull(st, b); err == nil && string(b) == "ping" {
+				okc++
+			}
+		}
+		st.Close()
+	}
+	g0 := settleGoroutines()
+	svc.mu.Lock()
+	svc.dead = true
+	svc.mu.Unlock()
+	time.Sleep(200 * time.Millisecond)
+	c0 := cpuTimeMs()
+	time.Sleep(time.Second)
+	cpu := cpuTimeMs() - c0
+	ended := 0
+	select {
+	case <-done:
+		ended = 1
+	default:
+	}
+	g1 := settleGoroutines()
+	return []Tok{TW("g"), TIn(g0), TIn(g1), TIn(g1), TW("fd"), TI(0), TI(0), TW("cpu"), TI(cpu), TW("ok"), TIn(okc), TW("ended"), TIn(ended)}
 }
